@@ -981,6 +981,73 @@ def rule_r19(ctx) -> RuleResult:
                   "parse() raises ValueError for a template whose name starts with the bare namespace word", min_instances=1)
 
 
+def rule_r20(ctx) -> RuleResult:
+    """Placeholders are the characters MAGIC_FIRST..MAGIC_LAST; the tokenizer, the parser and `_finalize_expand` recognise exactly
+    that range.  `_save_value` allocates `chr(MAGIC_FIRST + idx)`, so the allocation must be preceded by an exit for every
+    `idx >= MAX_MAGICS` (= MAGIC_LAST - MAGIC_FIRST + 1): one index too many yields a character nobody turns back, and the raw
+    placeholder stays in the tree (seed C01-10A: `>` for `>=`).  The guard is folded for idx = MAX_MAGICS - 1, MAX_MAGICS,
+    MAX_MAGICS + 1."""
+    rr = RuleResult("C01.R20", "a placeholder is allocated only inside the range the parser turns back", min_instances=1)
+    dotted = "core.Wtp._save_value"
+    fn = ctx.fn(dotted)
+    cm = ctx.index.mod("common")
+    mm = [a for a in cm.tree.body if isinstance(a, (ast.Assign, ast.AnnAssign)) and unparse(a.targets[0] if isinstance(a, ast.Assign) else a.target) == "MAX_MAGICS"]
+    if not mm or unparse(mm[-1].value).replace(" ", "") not in ("MAGIC_LAST-MAGIC_FIRST+1", "MAGIC_LAST+1-MAGIC_FIRST", "1+MAGIC_LAST-MAGIC_FIRST"):
+        raise AnalysisError("common.MAX_MAGICS is no longer defined as MAGIC_LAST - MAGIC_FIRST + 1 (inconclusive)")
+    allocs = [c for c in walk_no_nested(fn) if isinstance(c, ast.Call) and unparse(c.func) == "chr" and c.args and "MAGIC_FIRST" in unparse(c.args[0])]
+    if len(allocs) != 1 or not isinstance(allocs[0].args[0], ast.BinOp) or not isinstance(allocs[0].args[0].op, ast.Add):
+        raise AnalysisError("_save_value: allocation `chr(MAGIC_FIRST + idx)` not recognised")
+    a0 = allocs[0].args[0]
+    idx = unparse(a0.right if unparse(a0.left) == "MAGIC_FIRST" else a0.left)
+    idx_defs = [a.value for a in walk_no_nested(fn) if isinstance(a, ast.Assign) and unparse(a.targets[0]) == idx]
+    aliases = {idx} | {unparse(v) for v in idx_defs}
+    M = 1000
+
+    def val(e, i):
+        if unparse(e) in aliases:
+            return i
+        if isinstance(e, ast.Name) and e.id == "MAX_MAGICS":
+            return M
+        if isinstance(e, ast.Constant) and isinstance(e.value, int):
+            return e.value
+        if isinstance(e, ast.BinOp) and isinstance(e.op, (ast.Add, ast.Sub)):
+            l, r = val(e.left, i), val(e.right, i)
+            return None if l is None or r is None else (l + r if isinstance(e.op, ast.Add) else l - r)
+        return None
+
+    import operator
+    ops = {ast.Lt: operator.lt, ast.LtE: operator.le, ast.Eq: operator.eq, ast.Gt: operator.gt, ast.GtE: operator.ge, ast.NotEq: operator.ne}
+
+    def truth(t, i):
+        if isinstance(t, ast.UnaryOp) and isinstance(t.op, ast.Not):
+            v = truth(t.operand, i)
+            return None if v is None else not v
+        if isinstance(t, ast.Compare) and len(t.ops) == 1 and type(t.ops[0]) in ops:
+            l, r = val(t.left, i), val(t.comparators[0], i)
+            return None if l is None or r is None else ops[type(t.ops[0])](l, r)
+        return None
+
+    guards = [n for n in fn.body if isinstance(n, ast.If) and n.lineno < allocs[0].lineno and "MAX_MAGICS" in unparse(n.test)
+              and n.body and isinstance(n.body[-1], (ast.Return, ast.Raise))]
+    if not guards and any(isinstance(n, ast.Name) and n.id == "MAX_MAGICS" for n in ast.walk(fn)):
+        raise AnalysisError("_save_value: MAX_MAGICS is consulted, but not by a top-level `if ...: return` before the allocation (inconclusive)")
+    if not guards:
+        rr.bad(Finding("C01.R20", "src/wikitextprocessor/core.py", dotted, unparse(allocs[0]),
+                       "no exit for a full placeholder table precedes the allocation", allocs[0].lineno))
+        return rr
+    tt = [truth(guards[0].test, i) for i in (M - 1, M, M + 1)]
+    if None in tt:
+        raise AnalysisError("_save_value: limit test `{}` could not be folded (inconclusive)".format(unparse(guards[0].test)[:60]))
+    if tt[1] and tt[2]:
+        rr.ok(dotted, "exit under `{}` covers every index >= MAX_MAGICS".format(unparse(guards[0].test)))
+    else:
+        rr.bad(Finding("C01.R20", "src/wikitextprocessor/core.py", dotted, "exit iff " + unparse(guards[0].test),
+                       "with the table exactly full (index MAX_MAGICS) the exit is not taken and chr(MAGIC_FIRST + MAX_MAGICS) = MAGIC_LAST + 1 is "
+                       "allocated: a character outside the range the tokenizer, the parser and _finalize_expand recognise, left raw in the tree",
+                       guards[0].lineno))
+    return rr
+
+
 def run(ctx) -> list:
     return [rule_r18(ctx), rule_r19(ctx), rule_r1(ctx), rule_r2(ctx), rule_r3(ctx), rule_r4(ctx), rule_r5(ctx), rule_r6(ctx), rule_r7(ctx), rule_r8(ctx),
-            rule_r9(ctx), rule_r10(ctx), rule_r11(ctx), rule_r12(ctx), rule_r13(ctx), rule_r14(ctx), rule_r15(ctx), rule_r16(ctx), rule_r17(ctx)]
+            rule_r9(ctx), rule_r10(ctx), rule_r11(ctx), rule_r12(ctx), rule_r13(ctx), rule_r14(ctx), rule_r15(ctx), rule_r16(ctx), rule_r17(ctx), rule_r20(ctx)]
